@@ -329,6 +329,134 @@ def body_map_track(case):
     return _info(refs, kinds)
 
 
+def _readback(tr):
+    """the polyline as the track holds it now, read observation by observation"""
+    return [[tr.getObs(i).position.getX(), tr.getObs(i).position.getY()] for i in range(tr.size())]
+
+
+def _explained_by(earlier, refs, got):
+    """an earlier polyline of the same track against which every answer of this projection is right
+    (or wrong only in the recorded vertical-segment way); None if there is none.  Only consulted after
+    an unrecorded violation against the current polyline, so it cannot raise an alarm of its own."""
+    for P in earlier:
+        if all(_orient(g) == "zero" for g in _segs(P)):
+            continue
+        ok = True
+        for ref in refs:
+            try:
+                _judge(Ref(P, ref.q), *got[id(ref)], "earlier")
+            except Violation as v:
+                if v.key not in RECORDED:
+                    ok = False
+                    break
+        if ok:
+            return P
+    return None
+
+
+def body_map_sequence(case):
+    """project, edit the reference track in place (same size) or copy-then-edit, project again ...:
+    every projection is judged against the polyline the track holds at that moment"""
+    from tracklib.core.obs import Obs
+    pts0 = [[float(p[0]), float(p[1])] for p in case["pts"]]
+    if len(pts0) < 2:
+        return {"undef": True}
+    tracks = [gen.make_track([(a[0], a[1]) for a in pts0])]
+    act = 0
+    bad, cls = [], ["nseg-%d" % (len(pts0) - 1)]
+    nt = False
+    seen, dirty = [False], [False]     # per track: projected on before (itself or its source); edited since then
+    past = [[]]                        # per track: the polylines it (or its source) held at earlier projections
+    judged = 0
+    for op in case["ops"]:
+        name, tr = op[0], tracks[act]
+        if name == "translate":
+            tr.translate(float(op[1]), float(op[2]))
+            dirty[act] = seen[act]
+        elif name == "move":
+            k = int(op[1]) % tr.size()
+            tr.getObs(k).position.setX(float(op[2]))
+            tr.getObs(k).position.setY(float(op[3]))
+            dirty[act] = seen[act]
+        elif name == "setobs":
+            k = int(op[1]) % tr.size()
+            tr.setObs(k, Obs(ENUCoords(float(op[2]), float(op[3]), 0), tr.getObs(k).timestamp))
+            dirty[act] = seen[act]
+        elif name == "copy":
+            tracks.append(tr.copy())
+            seen.append(seen[act])
+            dirty.append(dirty[act])
+            past.append(list(past[act]))
+            act = len(tracks) - 1
+        elif name == "switch":
+            act = int(op[1]) % len(tracks)
+        elif name in ("coord", "track"):
+            pts = _readback(tr)
+            qs = [[float(q[0]), float(q[1])] for q in op[1]]
+            kinds = list(op[2]) if len(op) > 2 else ["?"] * len(qs)
+            if len(pts) != len(pts0) or not qs or all(_orient(g) == "zero" for g in _segs(pts)) \
+                    or not all(math.isfinite(c) for a in pts + qs for c in a) or _ill_conditioned(pts):
+                cls.append("projection-skipped-outside-domain")
+                continue
+            refs = [Ref(pts, q) for q in qs]
+            judged += 1
+            edited = dirty[act]
+            seen[act] = True
+            earlier = [P for P in past[act] if P != pts]
+            if pts not in past[act]:
+                past[act].append(pts)
+            got = {}
+            try:
+                if name == "coord":
+                    def one(ref):
+                        r = _call([ref], lambda: mapOnTrack(ENUCoords(ref.q[0], ref.q[1], 0), tr))
+                        if not (isinstance(r, tuple) and len(r) == 3 and hasattr(r[0], "getX")):
+                            raise Violation("bad-shape", "mapOnTrack(coord, track) returns %r" % (r,))
+                        got[id(ref)] = (r[1], r[0].getX(), r[0].getY(), r[2])
+                        _judge(ref, r[1], r[0].getX(), r[0].getY(), r[2], "mapOnTrack(coord, track)")
+                    _each(refs, one)
+                else:
+                    qt = gen.make_track([(q[0], q[1]) for q in qs])
+                    out = _call(refs, lambda: mapOnTrack(qt, tr))
+                    if not hasattr(out, "size") or out.size() != len(qs):
+                        raise Violation("map-track-size", "mapOnTrack(track, track): %d queries, result %r" % (len(qs), out))
+                    order = {id(ref): k for k, ref in enumerate(refs)}
+
+                    def one(ref):
+                        k = order[id(ref)]
+                        pos = out.getObs(k).position
+                        got[id(ref)] = (out.getObsAnalyticalFeature("dist", k), pos.getX(), pos.getY(),
+                                        out.getObsAnalyticalFeature("edge", k))
+                        _judge(ref, *got[id(ref)], "mapOnTrack(track, track)[%d]" % k)
+                    _each(refs, one)
+            except Violation as v:
+                if v.key not in RECORDED and len(got) == len(refs):
+                    old = _explained_by(earlier, refs, got)
+                    if old is not None:
+                        v = Violation("stale-geometry", "answers fit the polyline %s that the track held at an earlier "
+                                      "projection, not the current one: %s" % (old, v.msg))
+                bad.append(v)
+                continue
+            if _readback(tr) != pts:
+                raise Violation("map-mutates-track", "mapOnTrack changed the track it projects on")
+            info = _info(refs, kinds)
+            cls.append("proj-%s-%s" % (name, "after-edit" if edited else "fresh"))
+            if edited and info["nt"]:
+                nt = True
+        else:
+            return {"undef": True}
+        if name not in ("coord", "track"):
+            cls.append("op-" + name)
+    for v in bad:
+        if v.key not in RECORDED:
+            raise v
+    if bad:
+        raise bad[0]
+    if judged == 0:
+        return {"undef": True}
+    return {"nt": nt, "cls": cls}
+
+
 # ------------------------------------------------------------------------------------------------
 # generator.  Coordinates are n / 1000.0 with integer n, so equal values are equal floats and two
 # different values differ by >= 1e-3.  Few draws per case: Hypothesis' per-draw cost dominates.
@@ -447,6 +575,100 @@ def strat_map_track():
     return _strategy(1, 7, 5)
 
 
+# sequences: 1/8 lattice only, so that translations, moves and queries are exact in binary
+def _lat():
+    return st.integers(-128, 128).map(lambda k: k * 125)
+
+
+def _lat_step():
+    obl = st.tuples(st.just("obl"), _lat(), _lat())
+    hor = st.tuples(st.just("hor"), _lat(), st.just(0))
+    ver = st.tuples(st.just("ver"), st.just(0), _lat())
+    zero = st.just(("zero", 0, 0))
+    return st.one_of(obl, obl, obl, hor, hor, ver, zero)
+
+
+def _edit_spec():
+    sh = st.integers(-16, 16)
+    jsel = st.integers(0, 7)
+    return st.one_of(
+        st.tuples(st.just("translate"), sh, sh),
+        st.tuples(st.just("move"), jsel, _lat(), _lat()),
+        st.tuples(st.just("setobs"), jsel, _lat(), _lat()),
+        st.tuples(st.just("copy_translate"), sh, sh),
+        st.tuples(st.just("copy_move"), jsel, _lat(), _lat()),
+        st.tuples(st.just("switch"), jsel, sh, sh),
+        st.tuples(st.just("switch"), jsel, sh, sh),
+        st.tuples(st.just("switch"), jsel, sh, sh))
+
+
+def _proj_spec():
+    return st.tuples(st.sampled_from(["coord", "coord", "track"]), st.lists(_qspec(), min_size=1, max_size=3))
+
+
+def _seq_queries(vs, specs):
+    out = []
+    for sp in specs:
+        if sp[0] in ("beside", "beyond", "on") and all(vs[i] == vs[i + 1] for i in range(len(vs) - 1)):
+            sp = ("free", vs[0][0] + 125 * sp[2], vs[0][1] + 125)
+        a, b = _query(vs, sp)
+        out.append([a / 8000.0, b / 8000.0])
+    return out
+
+
+def _build_seq(t):
+    start, steps, first, rounds = t
+    tracks = [_vertices(start, list(steps))]
+    act = 0
+    case = {"pts": [[x / 1000.0, y / 1000.0] for x, y in tracks[0]], "ops": []}
+
+    def project(ps):
+        case["ops"].append([ps[0], _seq_queries(tracks[act], ps[1]), [q[0] for q in ps[1]]])
+
+    def translate(k, l):
+        if k == 0 and l == 0:
+            k = 1
+        tracks[act] = [(x + 125 * k, y + 125 * l) for x, y in tracks[act]]
+        case["ops"].append(["translate", k * 125 / 1000.0, l * 125 / 1000.0])
+
+    def move(name, j, x, y):
+        j %= len(tracks[act])
+        if tracks[act][j] == (x, y):
+            x += 125
+        vs = list(tracks[act])
+        vs[j] = (x, y)
+        tracks[act] = vs
+        case["ops"].append([name, j, x / 1000.0, y / 1000.0])
+
+    project(first)
+    for ed, ps in rounds:
+        kind = ed[0]
+        if kind == "switch" and len(tracks) > 1:
+            act = (act + 1 + ed[1] % (len(tracks) - 1)) % len(tracks)
+            case["ops"].append(["switch", act])
+        elif kind in ("translate", "switch"):
+            translate(ed[-2], ed[-1])
+        elif kind in ("move", "setobs"):
+            move(kind, ed[1], ed[2], ed[3])
+        else:
+            tracks.append(list(tracks[act]))
+            act = len(tracks) - 1
+            case["ops"].append(["copy"])
+            if kind == "copy_translate":
+                translate(ed[1], ed[2])
+            else:
+                move("move", ed[1], ed[2], ed[3])
+        project(ps)
+    return case
+
+
+def strat_sequence():
+    return st.tuples(st.tuples(_lat(), _lat()),
+                     st.lists(_lat_step(), min_size=1, max_size=4),
+                     _proj_spec(),
+                     st.lists(st.tuples(_edit_spec(), _proj_spec()), min_size=1, max_size=4)).map(_build_seq)
+
+
 RULE = ("Hypothesis: start vertex + 1..7 steps of class oblique / horizontal / vertical / zero-length / short (< 0.1), "
         "coordinates n/1000 (1/8 lattice of [-16,16]^2 with offsets 0.1, 0.3, +-0.001); query relative to a proper segment "
         "(beside: foot at k/8 of the segment, off by s/8 segment lengths; beyond: parameter -1..2 outside [0,1]; on: s = 0), "
@@ -454,15 +676,21 @@ RULE = ("Hypothesis: start vertex + 1..7 steps of class oblique / horizontal / v
         "(1..5 for mapOnTrack(track, track)).  "
         "Non-trivial: for at least one query the true nearest point is a foot strictly inside a segment (by more than the "
         "tolerance), not a vertex.  "
+        "map_sequence: 1/8 lattice only; project, then 1..4 rounds of (edit the reference track in place without changing its "
+        "size: translate / setX+setY of one vertex / setObs / copy-then-edit / switch back to an earlier track; project again), "
+        "every projection judged against the polyline read back from the track at that moment; non-trivial there = a projection "
+        "after an edit whose nearest point is an interior foot.  "
         "Distinct = hash of the case.")
 
 SUBCHECKS = [
-    SubCheck("segment", body_segment, strategy=strat_segment, quick=12000, thorough=300000,
+    SubCheck("segment", body_segment, strategy=strat_segment, quick=10000, thorough=300000,
              rule="proj_segment on one proper segment, 1..4 queries"),
-    SubCheck("polyline", body_polyline, strategy=strat_polyline, quick=12000, thorough=300000,
+    SubCheck("polyline", body_polyline, strategy=strat_polyline, quick=10000, thorough=300000,
              rule="proj_polyligne(X, Y, x, y) on 2..8 vertices, 1..4 queries"),
-    SubCheck("map_coord", body_map_coord, strategy=strat_polyline, quick=8000, thorough=150000,
+    SubCheck("map_coord", body_map_coord, strategy=strat_polyline, quick=6000, thorough=150000,
              rule="mapOnTrack(ENUCoords, track), 1..4 queries"),
-    SubCheck("map_track", body_map_track, strategy=strat_map_track, quick=8000, thorough=150000,
+    SubCheck("map_track", body_map_track, strategy=strat_map_track, quick=6000, thorough=150000,
              rule="mapOnTrack(track, track), 1..5 queries in one call"),
+    SubCheck("map_sequence", body_map_sequence, strategy=strat_sequence, quick=6000, thorough=150000,
+             rule="project / edit the reference track in place or copy-then-edit / project again (2..5 projections per case)"),
 ]
